@@ -24,7 +24,7 @@ ASSUMPTIONS = [
     "the raw bytes of unopened blocks are taken from the written file by the independent header parser",
 ]
 REQUIRED_CLASSES = ["key.ends00", "upd.crc.lo=00", "upd.crc.hi=00", "upd.crc=0000", "cust.crc.lo=00", "cust.crc.hi=00", "blocks>=2", "strict-subset", "ecc",
-                    "enc-component", "route=path", "ecc.edge-scalar", "decoy-decryptors", "unknown-tag-block", "public-only-encryptor-in-reader-list"]
+                    "enc-component", "route=path", "ecc.edge-scalar", "decoy-decryptors", "unknown-tag-block", "public-only-encryptor-in-reader-list", "file>32KiB"]
 
 KEY_CLASSES = ["random", "ends00", "upd.lo", "upd.hi", "upd.both", "cust.lo", "cust.hi", "cust.both"]
 
@@ -220,8 +220,28 @@ def enum_keygrid(tier, shard, nshards, rng):
                            open=opn, route="stream", upd_writer_explicit=bool(rep % 3), check_cmac=True)
 
 
+def enum_large(tier, shard, nshards, rng):
+    """CONSTRUCTED: BEC2 files far larger than the generated ones (plain payload above 32 KiB / 64 KiB of hex text, encrypted component above 4 KiB)"""
+    sizes = [(33000, 4097), (70001, 9000)] if tier == "quick" else [(33000, 4097), (70001, 9000), (140000, 65537), (1 << 20, 200000)]
+    for i, (n_plain, n_enc) in enumerate(sizes):
+        if i % nshards != shard:
+            continue
+        comps = [dict(desc=[(0xC3, b"\x02")], blob=bytes(rng.getrandbits(8) for _ in range(n_plain - 1)) + b"\x00", actual_len=None, enc=False),
+                 dict(desc=[(0xC3, b"\x03"), (0xC2, b"\x02"), (0xC1, b"\x03"), (0xC5, b"\x01")], blob=bytes(rng.getrandbits(8) | 1 for _ in range(n_enc)), actual_len=None, enc=True)]
+        blocks = [dict(kind="cust", crypto_key=bytes(rng.getrandbits(8) for _ in range(16)), customer_key=None),
+                  dict(kind="upd", code=bytes(rng.getrandbits(8) for _ in range(8)), version=i)]
+        yield dict(comments=[("FirmwareId", "1100")], comps=comps, key=bytes(rng.getrandbits(8) | 1 for _ in range(16)), blocks=blocks, open=[i % 2],
+                   route="path" if i % 2 else "stream", upd_writer_explicit=True, check_cmac=True)
+
+
+def check_large(case, rec):
+    rec.cls("file>32KiB")
+    check(case, rec)
+
+
 def parts(tier):
     return [
         Part("keygrid", check=check, enum=enum_keygrid, quick=(8, 0), thorough=(16, 0), exhaustive=False),
+        Part("large", check=check_large, enum=enum_large, quick=(2, 0), thorough=(4, 0)),
         Part("roundtrip", check=check, strategy=lambda tier: strat_case(tier), quick=(16, 200), thorough=(16, 3000)),
     ]
